@@ -499,7 +499,12 @@ def child_main(jobs_path, out_path):
     for job in jobs:
         t0 = time.time()
         try:
-            r = run_persist(job) if job["kind"] == "persist" else run_fit(job)
+            if job["kind"] == "historical":
+                from harness import histflow
+
+                r = histflow.run(job)
+            else:
+                r = run_persist(job) if job["kind"] == "persist" else run_fit(job)
         except Exception as e:  # noqa: BLE001
             r = {"id": job["id"], "outcome": f"harness_error:{type(e).__name__}", "detail": traceback.format_exc()[-3000:]}
         r["wall"] = round(time.time() - t0, 2)
